@@ -239,6 +239,16 @@ def r173(ctx, rep, mod):
         commits = [c for c in _calls(fn.node) if _is_commit(c)]
         for c in commits:
             rep.violated('R17.3', fn, norm(c), '%s must leave committing to _todb (after the insert)' % name, c)
+        # the connection petl opens itself must be in the default (transactional) mode
+        for c in _calls(fn.node):
+            if norm(c.func).endswith('sqlite3.connect') or norm(c.func) == 'connect':
+                bad = [k.arg for k in c.keywords if k.arg in ('isolation_level', 'autocommit')]
+                if bad:
+                    rep.violated('R17.3', fn, norm(c)[:70],
+                                 'the connection opened from a file name is put into autocommit mode (%s): the DELETE and every '
+                                 'INSERT are durable at once, commit() is a no-op and closing rolls nothing back' % ', '.join(bad), c)
+                else:
+                    rep.held('R17.3', fn, norm(c)[:70], 'default transaction mode', c)
         # R17.4 part: truncate literal
         kw = [k for k in call.keywords if k.arg == 'truncate']
         if kw and isinstance(kw[0].value, ast.Constant) and kw[0].value.value is trunc:
